@@ -20,6 +20,7 @@ pub struct RunResult {
     pub digest: u64,
     pub nontrivial: bool,
     pub swarm: String,
+    pub refs: Vec<crate::sim::RefKey>,
 }
 
 fn finish_run(mut sim: Sim, ops: Vec<TOp>, stop: Option<Stop>, swarm: String) -> RunResult {
@@ -34,7 +35,8 @@ fn finish_run(mut sim: Sim, ops: Vec<TOp>, stop: Option<Stop>, swarm: String) ->
             Ok(()) => {}
         },
     }
-    RunResult { ops, violation, harness, stats: sim.stats.clone(), trace_hash: sim.trace_hash, digest: sim.digest, nontrivial: sim.nontrivial, swarm }
+    let refs = if violation.is_none() && harness.is_none() { std::mem::take(&mut sim.refs) } else { Vec::new() };
+    RunResult { ops, violation, harness, stats: sim.stats.clone(), trace_hash: sim.trace_hash, digest: sim.digest, nontrivial: sim.nontrivial, swarm, refs }
 }
 
 /// Execute an explicit history.
@@ -163,9 +165,12 @@ pub fn parse_ops(lines: &[String]) -> Result<Vec<TOp>, String> {
 /// ddmin over the op list, keeping a candidate only if the same violation signature persists.
 pub fn minimize(prop: Prop, ops: &[TOp], sig: &str, env: &mut Env, budget_s: f64) -> Vec<TOp> {
     let t0 = Instant::now();
+    let scratch = env.dir.join("min.out");
     let still = |cand: &[TOp], env: &mut Env| -> bool {
-        let r = run_ops(prop, cand, env);
-        r.violation.map(|v| v.signature() == sig).unwrap_or(false)
+        match run_ops_isolated(prop, cand, env, &scratch) {
+            Ok((Some(v), _)) => v.signature() == sig,
+            _ => false,
+        }
     };
     let mut cur: Vec<TOp> = ops.to_vec();
     let mut n = 2usize;
@@ -254,6 +259,8 @@ pub struct BatchCfg {
     pub sys_max_n: usize,
     pub sys_variants: usize,
     pub dump_digests: Option<PathBuf>,
+    /// consecutive runs executed in one forked process (1 = full isolation; larger amortises the fork)
+    pub runs_per_fork: u64,
 }
 
 pub struct Found {
@@ -288,89 +295,242 @@ struct Summary {
     harness: Option<String>,
     sample: Option<(String, Vec<String>, u64)>,
     profile: String,
+    refs: Vec<crate::sim::RefKey>,
+    ops_for_refs: Vec<TOp>,
+    swarm: String,
 }
 
 /// One shard of a batch, executed single-threaded (in a child process, so that process-wide
 /// state in the code under test cannot leak between concurrently running shards).
-fn run_shard(cfg: &BatchCfg, shard: u64, of: u64, only: Option<&[u64]>, tag: &str) -> Result<Vec<Summary>, String> {
+fn summary_of(i: u64, r: RunResult, sample: bool) -> Summary {
+    let sample = if sample { Some((r.swarm.clone(), r.ops.iter().take(16).map(|o| o.to_text()).collect::<Vec<_>>(), r.ops.len() as u64)) } else { None };
+    let profile = r.swarm.split_whitespace().next().unwrap_or("").to_string();
+    let ops_for_refs = if r.refs.is_empty() { Vec::new() } else { r.ops.clone() };
+    Summary {
+        i,
+        trace_hash: r.trace_hash,
+        digest: r.digest,
+        nontrivial: r.nontrivial,
+        stats: r.stats,
+        found: r.violation.map(|v| Found { run: i, violation: v, ops: r.ops.clone(), swarm: r.swarm.clone() }),
+        harness: r.harness,
+        sample,
+        profile,
+        refs: r.refs,
+        ops_for_refs,
+        swarm: r.swarm,
+    }
+}
+
+/// Execute the canonical history of a reference key in a pristine (forked) process and compare.
+pub fn check_refs(refs: &[crate::sim::RefKey], env: &mut Env, scratch: &Path) -> Result<Option<Violation>, String> {
+    for rk in refs {
+        let canon = rk.canonical.clone();
+        let out = crate::fork::isolated(scratch, std::time::Duration::from_secs(300), || {
+            let r = run_ops(Prop::C03, &canon, env);
+            if let Some(h) = r.harness {
+                return format!("H {}", h);
+            }
+            match r.refs.last() {
+                Some(k) => format!("W {:x} {}", k.hash, k.len),
+                None => "N".to_string(),
+            }
+        });
+        match out {
+            crate::fork::ForkOut::Ok(t) => {
+                if let Some(h) = t.strip_prefix("H ") {
+                    return Err(format!("reference history failed: {}", h));
+                }
+                let want = format!("W {:x} {}", rk.hash, rk.len);
+                if t != want {
+                    let got = if t == "N" { "no waveform (panic or error)".to_string() } else { format!("a waveform of {} samples", t.split(' ').nth(2).unwrap_or("?")) };
+                    return Ok(Some(Violation {
+                        oracle: "C03.fresh-process-reference",
+                        class: if t == "N" { "outcome-differs-from-pristine-process".into() } else { "waveform-differs-from-pristine-process".into() },
+                        detail: format!(
+                            "op#{} produced a waveform of {} samples; the same voice set, condition and labels reached from scratch in a pristine process ({} ops: load, setters, one synthesis) gave {} - the output depends on what happened earlier in the process",
+                            rk.at_op,
+                            rk.len,
+                            rk.canonical.len(),
+                            got
+                        ),
+                        op_index: rk.at_op,
+                    }));
+                }
+            }
+            crate::fork::ForkOut::Died(d) => return Err(format!("reference process died: {}", d)),
+        }
+    }
+    Ok(None)
+}
+
+/// Execute a history in a forked process (plus its fresh-process references); returns the
+/// violation found, if any. Used by replay and by the minimiser.
+pub fn run_ops_isolated(prop: Prop, ops: &[TOp], env: &mut Env, scratch: &Path) -> Result<(Option<Violation>, usize), String> {
+    let ops_v = ops.to_vec();
+    let out = crate::fork::isolated(scratch, std::time::Duration::from_secs(600), || {
+        let r = run_ops(prop, &ops_v, env);
+        let s = summary_of(0, r, false);
+        let mut t = String::new();
+        write_summary(&mut t, &s);
+        t
+    });
+    match out {
+        crate::fork::ForkOut::Ok(t) => {
+            let d = parse_shard_text(&t)?;
+            if let Some(h) = d.harness.first() {
+                return Err(h.clone());
+            }
+            if let Some(f) = d.found.into_iter().next() {
+                let n = f.ops.len();
+                return Ok((Some(f.violation), n));
+            }
+            if prop == Prop::C03 {
+                for (_, refs, _, _) in &d.refs {
+                    if let Some(v) = check_refs(refs, env, scratch)? {
+                        return Ok((Some(v), ops.len()));
+                    }
+                }
+            }
+            Ok((None, ops.len()))
+        }
+        crate::fork::ForkOut::Died(d) => Err(format!("isolated run died: {}", d)),
+    }
+}
+
+/// One shard of a batch. Every run is executed in its own forked process, so nothing the code
+/// under test leaves behind (statics, thread-locals) can reach the next run.
+fn run_shard(cfg: &BatchCfg, shard: u64, of: u64, only: Option<&[u64]>, tag: &str, out_path: &Path) -> Result<(), String> {
+    use std::io::Write as _;
     let sys_hist = if cfg.prop == Prop::C02 { gen::systematic_c02_histories(cfg.sys_max_n) } else { vec![] };
     let sys = SysPrefix { hist: sys_hist, variants: cfg.sys_variants };
     let sys_len = sys.len() as u64;
     let total = cfg.runs + sys_len;
+    crate::fork::own_process_group();
     let mut env = Env::new(tag)?;
     let pools = Pools::new(cfg.verif_seed);
-    let mut out = Vec::new();
-    let indices: Vec<u64> = match only {
+    // voice files are written once per shard (harness code only; nothing of jbonsai runs here), the
+    // forked runs find them by name and only have to load them
+    env.prebuild_pool_voices(&pools, cfg.prop == Prop::C02, matches!(cfg.prop, Prop::C19 | Prop::C20));
+    // runs are grouped: group g = runs [g*k, (g+1)*k); a group is the unit of forking, sharding and of
+    // the determinism pass (`only` lists group ids)
+    let k = cfg.runs_per_fork.max(1);
+    let ngroups = total.div_ceil(k);
+    let groups: Vec<u64> = match only {
         Some(v) => v.to_vec(),
-        None => (0..total).filter(|i| i % of == shard).collect(),
+        None => (0..ngroups).filter(|g| g % of == shard).collect(),
     };
     let status = std::env::var_os("JBSIM_STATUS_FILE").map(PathBuf::from);
-    for i in indices {
+    let scratch = env.dir.join("run.out");
+    let scratch2 = env.dir.join("ref.out");
+    let mut out = std::io::BufWriter::new(std::fs::File::create(out_path).map_err(|e| e.to_string())?);
+    let no_fork = std::env::var_os("JBSIM_NO_FORK").is_some();
+    for g in groups {
+        let first = g * k;
+        let last = ((g + 1) * k).min(total);
         if let Some(p) = &status {
-            let _ = std::fs::write(p, format!("{}", i));
+            let _ = std::fs::write(p, format!("{}", first));
         }
-        let t_run = Instant::now();
-        let r = run_index(cfg.prop, cfg.verif_seed, i, &pools, &sys, &mut env);
-        if std::env::var_os("JBSIM_SLOW").is_some() && t_run.elapsed().as_millis() > 50 {
-            eprintln!("SLOW run {} {}ms {} ops={} samples={}", i, t_run.elapsed().as_millis(), r.swarm, r.ops.len(), r.stats.samples_compared);
+        let body = |env: &mut Env| -> String {
+            let mut t = String::new();
+            for i in first..last {
+                let want_sample = i % (total / 6).max(1) == 0 || (i >= sys_len && i < sys_len + 2);
+                let t_run = Instant::now();
+                let r = run_index(cfg.prop, cfg.verif_seed, i, &pools, &sys, env);
+                if std::env::var_os("JBSIM_SLOW").is_some() && t_run.elapsed().as_millis() > 50 {
+                    eprintln!("SLOW run {} {}ms {} ops={} samples={}", i, t_run.elapsed().as_millis(), r.swarm, r.ops.len(), r.stats.samples_compared);
+                }
+                let s = summary_of(i, r, want_sample);
+                write_summary(&mut t, &s);
+            }
+            t
+        };
+        let text = if no_fork {
+            body(&mut env)
+        } else {
+            match crate::fork::isolated(&scratch, std::time::Duration::from_secs(7200), || body(&mut env)) {
+                crate::fork::ForkOut::Ok(t) => t,
+                crate::fork::ForkOut::Died(d) => format!("H\t{}\trun process died (runs {}..{}): {}\n", first, first, last, d),
+            }
+        };
+        let _ = out.write_all(text.as_bytes());
+        // fresh-process references (C03): the canonical history of the most recent keys
+        if cfg.prop == Prop::C03 && text.contains("\nK\t") || text.starts_with("K\t") {
+            let d = parse_shard_text(&text)?;
+            for (run, refs, ops, swarm) in d.refs {
+                match check_refs(&refs, &mut env, &scratch2) {
+                    Ok(None) => {
+                        let _ = writeln!(out, "P\tfresh_process_reference_checked\t{}", refs.len());
+                    }
+                    Ok(Some(v)) => {
+                        let mut t = String::new();
+                        write_found(&mut t, &Found { run, violation: v, ops, swarm });
+                        let _ = out.write_all(t.as_bytes());
+                    }
+                    Err(e) => {
+                        let _ = writeln!(out, "H\t{}\t{}", run, clean(&e));
+                    }
+                }
+            }
         }
-        let sample = if i % (total / 6).max(1) == 0 || (i >= sys_len && i < sys_len + 2) { Some((r.swarm.clone(), r.ops.iter().take(16).map(|o| o.to_text()).collect::<Vec<_>>(), r.ops.len() as u64)) } else { None };
-        let profile = r.swarm.split_whitespace().next().unwrap_or("").to_string();
-        out.push(Summary {
-            i,
-            trace_hash: r.trace_hash,
-            digest: r.digest,
-            nontrivial: r.nontrivial,
-            stats: r.stats,
-            found: r.violation.map(|v| Found { run: i, violation: v, ops: r.ops.clone(), swarm: r.swarm.clone() }),
-            harness: r.harness,
-            sample,
-            profile,
-        });
     }
-    Ok(out)
+    let _ = out.write_all(b"DONE\n");
+    out.flush().map_err(|e| e.to_string())
 }
 
 fn clean(s: &str) -> String {
     s.replace(['\t', '\n'], " ")
 }
 
-fn write_shard(path: &Path, sums: &[Summary]) -> Result<(), String> {
+fn write_found(t: &mut String, f: &Found) {
     use std::fmt::Write as _;
-    let mut t = String::new();
-    let mut stats = Stats::default();
-    for s in sums {
-        let _ = writeln!(t, "R\t{}\t{:x}\t{:x}\t{}\t{}", s.i, s.trace_hash, s.digest, s.nontrivial as u8, clean(&s.profile));
-        stats.merge(&s.stats);
-        if let Some(f) = &s.found {
-            let _ = writeln!(t, "F\t{}\t{}\t{}\t{}\t{}\t{}", f.run, f.violation.oracle, clean(&f.violation.class), clean(&f.violation.detail), f.violation.op_index, clean(&f.swarm));
-            for o in &f.ops {
-                let _ = writeln!(t, "O\t{}", o.to_text());
-            }
-            t.push_str("E\n");
+    let _ = writeln!(t, "F\t{}\t{}\t{}\t{}\t{}\t{}", f.run, f.violation.oracle, clean(&f.violation.class), clean(&f.violation.detail), f.violation.op_index, clean(&f.swarm));
+    for o in &f.ops {
+        let _ = writeln!(t, "O\t{}", o.to_text());
+    }
+    t.push_str("E\n");
+}
+
+/// Text form of one run's result (concatenated into the shard file).
+fn write_summary(t: &mut String, s: &Summary) {
+    use std::fmt::Write as _;
+    let _ = writeln!(t, "R\t{}\t{:x}\t{:x}\t{}\t{}", s.i, s.trace_hash, s.digest, s.nontrivial as u8, clean(&s.profile));
+    if let Some(f) = &s.found {
+        write_found(t, f);
+    }
+    if let Some(h) = &s.harness {
+        let _ = writeln!(t, "H\t{}\t{}", s.i, clean(h));
+    }
+    if let Some((sw, ops, n)) = &s.sample {
+        let _ = writeln!(t, "M\t{}\t{}\t{}", s.i, clean(sw), n);
+        for o in ops {
+            let _ = writeln!(t, "O\t{}", o);
         }
-        if let Some(h) = &s.harness {
-            let _ = writeln!(t, "H\t{}\t{}", s.i, clean(h));
+        t.push_str("E\n");
+    }
+    if !s.refs.is_empty() {
+        let _ = writeln!(t, "K\t{}\t{}", s.i, clean(&s.swarm));
+        for k in &s.refs {
+            let canon: Vec<String> = k.canonical.iter().map(|o| o.to_text()).collect();
+            let _ = writeln!(t, "k\t{:x}\t{}\t{}\t{}", k.hash, k.len, k.at_op, canon.join("\x1e"));
         }
-        if let Some((sw, ops, n)) = &s.sample {
-            let _ = writeln!(t, "M\t{}\t{}\t{}", s.i, clean(sw), n);
-            for o in ops {
-                let _ = writeln!(t, "O\t{}", o);
-            }
-            t.push_str("E\n");
+        for o in &s.ops_for_refs {
+            let _ = writeln!(t, "O\t{}", o.to_text());
+        }
+        t.push_str("E\n");
+    }
+    let st = &s.stats;
+    for (k, v) in [("ops", st.ops), ("noop_ops", st.noop_ops), ("api_calls", st.api_calls), ("comparisons", st.comparisons), ("samples_compared", st.samples_compared), ("vacuous", st.vacuous)] {
+        if v > 0 {
+            let _ = writeln!(t, "S\t{}\t{}", k, v);
         }
     }
-    for (k, v) in [("ops", stats.ops), ("noop_ops", stats.noop_ops), ("api_calls", stats.api_calls), ("comparisons", stats.comparisons), ("samples_compared", stats.samples_compared), ("vacuous", stats.vacuous)] {
-        let _ = writeln!(t, "S\t{}\t{}", k, v);
-    }
-    for (k, v) in &stats.probes {
+    for (k, v) in &st.probes {
         let _ = writeln!(t, "P\t{}\t{}", k, v);
     }
-    for (k, v) in &stats.kinds {
-        let _ = writeln!(t, "K\t{}\t{}", k, v);
+    for (k, v) in &st.kinds {
+        let _ = writeln!(t, "C\t{}\t{}", k, v);
     }
-    t.push_str("DONE\n");
-    std::fs::write(path, t).map_err(|e| e.to_string())
 }
 
 struct ShardData {
@@ -379,6 +539,8 @@ struct ShardData {
     found: Vec<Found>,
     harness: Vec<String>,
     samples: Vec<(u64, J)>,
+    /// (run, reference keys, the run's ops, swarm)
+    refs: Vec<(u64, Vec<crate::sim::RefKey>, Vec<TOp>, String)>,
 }
 
 fn read_shard(path: &Path) -> Result<ShardData, String> {
@@ -386,7 +548,11 @@ fn read_shard(path: &Path) -> Result<ShardData, String> {
     if !text.ends_with("DONE\n") {
         return Err(format!("{}: incomplete shard output (child died?)", path.display()));
     }
-    let mut d = ShardData { runs: vec![], stats: Stats::default(), found: vec![], harness: vec![], samples: vec![] };
+    parse_shard_text(&text)
+}
+
+fn parse_shard_text(text: &str) -> Result<ShardData, String> {
+    let mut d = ShardData { runs: vec![], stats: Stats::default(), found: vec![], harness: vec![], samples: vec![], refs: vec![] };
     let mut lines = text.lines();
     while let Some(l) = lines.next() {
         let f: Vec<&str> = l.split('\t').collect();
@@ -419,6 +585,26 @@ fn read_shard(path: &Path) -> Result<ShardData, String> {
                 let i: u64 = f[1].parse().unwrap_or(0);
                 d.samples.push((i, J::obj().set("run", J::u(i)).set("swarm", J::s(f[2])).set("ops", J::strs(ops)).set("ops_total", J::u(f[3].parse().unwrap_or(0)))));
             }
+            "K" if f.len() >= 3 => {
+                let run: u64 = f[1].parse().unwrap_or(0);
+                let mut refs = Vec::new();
+                let mut ops = Vec::new();
+                for o in lines.by_ref() {
+                    if o == "E" {
+                        break;
+                    }
+                    if let Some(t) = o.strip_prefix("O\t") {
+                        ops.push(TOp::from_text(t).ok_or_else(|| format!("bad op line: {}", t))?);
+                    } else if let Some(t) = o.strip_prefix("k\t") {
+                        let g: Vec<&str> = t.split('\t').collect();
+                        if g.len() >= 4 {
+                            let canonical = g[3].split('\x1e').map(|x| TOp::from_text(x).ok_or_else(|| format!("bad canonical op: {}", x))).collect::<Result<Vec<_>, _>>()?;
+                            refs.push(crate::sim::RefKey { kind: 0, hash: u64::from_str_radix(g[0], 16).unwrap_or(0), len: g[1].parse().unwrap_or(0), at_op: g[2].parse().unwrap_or(0), canonical });
+                        }
+                    }
+                }
+                d.refs.push((run, refs, ops, f[2].to_string()));
+            }
             "S" if f.len() >= 3 => {
                 let v: u64 = f[2].parse().unwrap_or(0);
                 match f[1] {
@@ -432,7 +618,7 @@ fn read_shard(path: &Path) -> Result<ShardData, String> {
                 }
             }
             "P" if f.len() >= 3 => *d.stats.probes.entry(f[1].to_string()).or_insert(0) += f[2].parse::<u64>().unwrap_or(0),
-            "K" if f.len() >= 3 => *d.stats.kinds.entry(f[1].to_string()).or_insert(0) += f[2].parse::<u64>().unwrap_or(0),
+            "C" if f.len() >= 3 => *d.stats.kinds.entry(f[1].to_string()).or_insert(0) += f[2].parse::<u64>().unwrap_or(0),
             _ => {}
         }
     }
@@ -441,14 +627,8 @@ fn read_shard(path: &Path) -> Result<ShardData, String> {
 
 /// Child side of `run_batch`.
 pub fn run_child(cfg: &BatchCfg, shard: u64, of: u64, only: Option<Vec<u64>>, out: &Path) -> i32 {
-    match run_shard(cfg, shard, of, only.as_deref(), &format!("w1-{}-{}", shard, if only.is_some() { "det" } else { "main" })) {
-        Ok(sums) => match write_shard(out, &sums) {
-            Ok(()) => 0,
-            Err(e) => {
-                eprintln!("w1child: {}", e);
-                2
-            }
-        },
+    match run_shard(cfg, shard, of, only.as_deref(), &format!("w1-{}-{}", shard, if only.is_some() { "det" } else { "main" }), out) {
+        Ok(()) => 0,
         Err(e) => {
             eprintln!("w1child: {}", e);
             2
@@ -461,7 +641,7 @@ fn spawn_child(cfg: &BatchCfg, shard: u64, of: u64, only: Option<&Path>, out: &P
     let mut c = std::process::Command::new(exe);
     c.arg("w1child").arg(cfg.prop.id());
     c.args(["--seed", &cfg.verif_seed.to_string(), "--runs", &cfg.runs.to_string(), "--sys-variants", &cfg.sys_variants.to_string()]);
-    c.args(["--shard", &shard.to_string(), "--of", &of.to_string(), "--out", out.to_str().unwrap()]);
+    c.args(["--shard", &shard.to_string(), "--of", &of.to_string(), "--out", out.to_str().unwrap(), "--runs-per-fork", &cfg.runs_per_fork.to_string()]);
     if let Some(o) = only {
         c.args(["--only", o.to_str().unwrap()]);
     }
@@ -491,8 +671,11 @@ pub fn run_batch(cfg: &BatchCfg) -> Result<BatchOut, String> {
     if cfg.determinism_sample > 0 {
         let mut r = Rng::new(mix(&[cfg.verif_seed, 0xde7e]));
         let mut idx: BTreeSet<u64> = BTreeSet::new();
-        while (idx.len() as u64) < cfg.determinism_sample.min(total) {
-            idx.insert(r.below(total as usize) as u64);
+        let k = cfg.runs_per_fork.max(1);
+        let ngroups = total.div_ceil(k);
+        let want_groups = (cfg.determinism_sample / k).max(1).min(ngroups);
+        while (idx.len() as u64) < want_groups {
+            idx.insert(r.below(ngroups as usize) as u64);
         }
         det_idx = idx.iter().rev().copied().collect();
         let f = dir.join("det.only");
@@ -520,6 +703,7 @@ pub fn run_batch(cfg: &BatchCfg) -> Result<BatchOut, String> {
                         *last = cur;
                         *since = Instant::now();
                     } else if since.elapsed().as_secs() > 300 {
+                        crate::fork::kill_group(c.id());
                         let _ = c.kill();
                         harness_errors.push(format!("worker process {} made no progress for 300 s in run {} (hang inside the code under test?)", k, last));
                         *last = "exited-killed".into();
